@@ -4,13 +4,13 @@
 # reports a VIOLATION. Mutants that no check reports are then run through the repository's own suite:
 #   no-compile | caught-by:<id>[class] | suite-killed (only the repository's tests see it) | SURVIVED
 # SURVIVED mutants are either equivalent or a blind spot: each is classified by hand in automut/SURVIVORS.md.
-#   ./sweep.sh [--shard i/n] [--out file]
+#   ./sweep.sh [--shard i/n] [--out file] [--batch suffix]
 set -u
-SHARD="0/1"; OUT=""
-while [ $# -gt 0 ]; do case "$1" in --shard) SHARD="$2"; shift;; --out) OUT="$2"; shift;; esac; shift; done
+SHARD="0/1"; OUT=""; BATCH=""
+while [ $# -gt 0 ]; do case "$1" in --shard) SHARD="$2"; shift;; --out) OUT="$2"; shift;; --batch) BATCH="$2"; shift;; esac; shift; done
 SI=${SHARD%/*}; SN=${SHARD#*/}
 SRC=/verif
-OUT=${OUT:-$SRC/automut/results-$SI-of-$SN.tsv}
+OUT=${OUT:-$SRC/automut/results$BATCH-$SI-of-$SN.tsv}
 ISO=${ISO:-/tmp/verif-am-$SI}
 rm -rf "$ISO"; mkdir -p "$ISO/verif"
 REPO="$ISO/repo"
@@ -44,7 +44,7 @@ ALL="C01 C02 C03 C04 C05 C06 C07 C08 C09 C10 C11 C12 C13 C14 C15 C16 C17 C18 C19
 n=0
 while IFS=$'\t' read -r id file line op before after; do
   n=$((n+1)); if [ $(( (n-1) % SN )) -ne "$SI" ]; then continue; fi
-  patch="$SRC/automut/patches/$id.patch"
+  patch="$SRC/automut/patches$BATCH/$id.patch"
   git -C "$REPO" apply "$patch" 2>/dev/null || { echo -e "$id\t$file:$line\t$op\tPATCH-DOES-NOT-APPLY" | tee -a "$OUT"; continue; }
   if ! (cd "$ROOT/harness" && cargo build --release --offline -p pcheck >"$ISO/build.log" 2>&1); then
     git -C "$REPO" checkout -- .
@@ -66,4 +66,4 @@ while IFS=$'\t' read -r id file line op before after; do
   esac
   git -C "$REPO" checkout -- .
   echo -e "$id\t$file:$line\t$op\t$verdict\t$before\t=>\t$after" | tee -a "$OUT"
-done < "$SRC/automut/index.tsv"
+done < "$SRC/automut/index$BATCH.tsv"
